@@ -1,5 +1,40 @@
 /-
-C03, prefix clause, the fault kinds `Props/ExportFaults.lean` left to the oracle.
+C03, prefix clause: the fault kinds `Props/ExportFaults.lean` left to the oracle.
+
+1. TLS, MISSING SEGMENTS (`delete`, a `shorten`ed / truncated tail, several holes)
+   `sub_delivery_releases_prefix`, `delete_releases_prefix` (one direction of `Reassembly`): whatever copies of the stream's
+   segments the capture shows — some missing, some retransmitted (a retransmission of a missing segment fills the hole),
+   duplicates, any order — the records handed on are the first `n` records of the stream (from `Lemmas.ReasmInv.fold_inv`).
+   `conv_direction_run`: a conversation's direction hands the session what `Reassembly.run` releases for that direction.
+   `erased_prefix_exports_prefix` (`Lemmas/CarrierMap`: the session never looks at carrier lists): if the records released
+   under the fault are, bytes and directions, the first ones released without it, every direction exports a byte PREFIX.
+   `export_victim_delete_tls`: that holds when everything behind the fault runs in ONE direction (a transfer; the
+   receiver's pure ACKs never reach the session); `tlsConvs_single_flow` links the conversation object to the main loop.
+   NOT covered: a hole in one direction while the OTHER direction goes on releasing records — then the combined record list
+   is not a list prefix, and a per-direction prefix would need the independence of the two directions inside `Session.run`
+   (false in general: a missing ClientHello silences the server side too); oracle only.
+2. TLS, CAPTURE STARTS MID-CONNECTION (`cut-before`), lost handshake records
+   `headless_run` (no record taken for a ClientHello), `no_serverHello_run` (none taken for a ServerHello), for every
+   decryptor: `Keyless` — no decryptor, no application entry, only verbatim metadata entries; `export_victim_headless_tls`:
+   the conversation exports no plaintext, and without `-a` nothing at all. (A released record whose first body byte happens to
+   be 1 / 2 and whose type is 22 IS taken for a hello while no ChangeCipherSpec was seen — the hypothesis is on what the
+   reassembler releases, not on what the sender meant.)
+3. QUIC, LOST DATAGRAMS in the established 1-RTT phase (`delete`, a missing stretch, `cut-before` behind the handshake)
+   `quic_loss_subsequence`: the thinned history is conformant from the session's point of view (`Send1`: packet-number
+   windows `PnLenOk` = `C16.pn_decode_window`, key phase at most one generation ahead, DCID issued in a captured frame) ⇒ the
+   export is exactly the remaining STREAM datagrams, a subsequence of the complete export. Losses INSIDE the handshake (the
+   ServerHello datagram, a CRYPTO fragment of the ClientHello): no keys are installed and nothing is exported on the real
+   tool (oracle); the session-level facts are `Quic.Session`'s (`C02Crypto.rechunked_retransmission_stalls`), not lifted here.
+
+`make_faults` kind                       victim's own clause
+  cut-after                              ExportFaults.export_victim_cut_tls / _quic
+  delete, shorten (TLS)                  sub_delivery_releases_prefix (records), export_victim_delete_tls (bytes, one-direction
+                                         tail); other direction active behind the hole: oracle
+  cut-before (TLS)                       export_victim_headless_tls (no plaintext)
+  unknown-suite, no-keys, drop-keys      `C03.keyless_exports_no_app` at session level (`NeverInstalls`); whole program: oracle
+  delete, cut-before (QUIC, 1-RTT)       quic_loss_subsequence
+  delete, cut-before (QUIC, handshake)   oracle
+  bitflip, overwrite, wrong-keys         oracle (what a damaged record decrypts to is the AEAD's business)
 -/
 import TLX.Props.ExportFaults
 import TLX.Lemmas.CarrierMap
@@ -489,6 +524,34 @@ theorem export_victim_headless_tls (c : Pipeline.Conn) (kl : List Keylog.Key)
   rw [this]
   rfl
 
+/-- the link to the main loop: a capture whose TLS-relevant TCP packets are one flow `p0 :: rest` (first packet with a
+    server port at one end) yields one conversation — the object made from `p0`, holding `p0 :: rest` -/
+theorem tlsConvs_single_flow (o : Opts) (xs : List (Item Keylog.Key)) (p0 : Pkt) (rest : List Pkt)
+    (hv : Spec.Demux.tcpView o xs = p0 :: rest) (hflow : ∀ x ∈ rest, Spec.Demux.sameFlow p0 x = true)
+    (hc : candidate o p0 = true) :
+    Lemmas.ExportProps.tlsConvs H P info o xs =
+      [⟨(rolesOf o.ports p0).1, (rolesOf o.ports p0).2,
+        { (Pipeline.tlsMachine H P info).new o p0 with pkts := p0 :: rest }⟩] := by
+  unfold Lemmas.ExportProps.tlsConvs
+  rw [hv, Props.C04.tls_alone_is_run _ o p0 (p0 :: rest) (by
+    intro x hx
+    simp only [List.mem_cons] at hx
+    rcases hx with rfl | hx
+    · simp [Spec.Demux.sameFlow]
+    · exact hflow x hx)]
+  simp only [Spec.Demux.alone, hc, if_true, Option.toList_some, List.cons.injEq, and_true]
+  have hfeed : ∀ (s : TlsSess Pipeline.Conn) (l : List Pkt),
+      Spec.Demux.feedAll (Pipeline.tlsMachine H P info) s l = { s with st := { s.st with pkts := s.st.pkts ++ l } } := by
+    intro s l
+    induction l generalizing s with
+    | nil => simp [Spec.Demux.feedAll]
+    | cons q l ih =>
+      simp only [Spec.Demux.feedAll, List.foldl_cons] at ih ⊢
+      rw [ih]
+      simp [Pipeline.tlsMachine]
+  rw [hfeed]
+  rfl
+
 end HeadlessConv
 
 -- ====================================================================== 3. QUIC: lost datagrams in the 1-RTT phase
@@ -540,5 +603,38 @@ theorem quic_loss_subsequence (kl : List Keylog.Key) (L : SealLaws Pc) (sel : Su
   exact expectedOut_sublist c hsubd
 
 end QuicLoss
+
+-- ====================================================================== non-vacuity
+namespace Ex
+open TLX.Reassembly TLX.Spec.TlsFraming TLX.Props.C05 TLX.Session
+
+/-- three records (handshake, application data, alert) sent as three segments from sequence number 100; the capture
+    misses the second one -/
+def full3 : List Seg := [⟨1, 100, r1⟩, ⟨2, 105, r2⟩, ⟨3, 111, r3⟩]
+def holed : List Seg := [⟨1, 100, r1⟩, ⟨3, 111, r3⟩]
+
+/-- every hypothesis of `delete_releases_prefix` holds; the theorem's conclusion, evaluated: the unfaulted capture releases
+    the three records, the holed one the first record only — nothing behind the hole -/
+theorem delete_instance :
+    Delivers 0 100 (r1 ++ r2 ++ r3) (full3.map wire) ∧ (∀ p ∈ holed, p ∈ full3) ∧ WholeRecords (r1 ++ r2 ++ r3) ∧
+    (run full3).map (·.1) = [r1, r2, r3] ∧ (run holed).map (·.1) = [r1] := by
+  refine ⟨?_, by decide, whole_r123, by decide +kernel, by decide +kernel⟩
+  exact Delivers.cut [r1, r2, r3] ⟨by decide, by decide⟩
+
+/-- … and a retransmission of the missing segment at the end fills the hole: all three records, in order -/
+theorem retransmission_fills_hole :
+    (run (holed ++ [(⟨4, 105, r2⟩ : Seg)])).map (·.1) = [r1, r2, r3] := by decide +kernel
+
+/-- a capture that starts behind the ClientHello: a ServerHello-looking record, a ChangeCipherSpec and application data —
+    none of them is taken for a ClientHello, so `headless_run` applies: no plaintext -/
+def headlessRecs : List (Session.Rec × Bool) :=
+  [(⟨[0x16, 3, 3, 0, 4, 2, 0, 0, 0], [7]⟩, true), (⟨[0x14, 3, 3, 0, 1, 1], [8]⟩, true), (⟨[0x17, 3, 3, 0, 2, 9, 9], [9]⟩, true)]
+
+theorem headless_instance : ∀ x ∈ headlessRecs, ¬ LooksHello 0x01 x.1 := by
+  intro x hx
+  simp only [headlessRecs, List.mem_cons, List.mem_nil_iff, or_false] at hx
+  rcases hx with rfl | rfl | rfl <;> simp [LooksHello, Session.Rec.typ, Session.Rec.body]
+
+end Ex
 
 end TLX.Props.ExportFaults2
